@@ -1,4 +1,6 @@
 """Positive controls (harness/fixtures): zero-count rules are exercised on deliberately broken code on every run."""
+import re
+
 from pvrules.mir import strip_generics
 from pvrules.rules import atomic_prim
 
@@ -48,3 +50,28 @@ def control_leak_and_instant(ctx, rid, which):
         if c.matches(["Instant::duration_since"]):
             found.add("duration_since")
     ctx.ob(rid, "control|fixtures::" + which, which in found, "positive control: the call matcher must see %s in fixtures::leak_and_subtract" % which, kind="CONTROL")
+
+
+def manual_marker_impls(f):
+    """Hand-written `impl Send/Sync for T` items of a crate (auto-trait impls are not items and do not appear in the impl table)."""
+    return [(im["self"], im["trait"].split("::")[-1], im.get("span", {}).get("at")) for im in f.impls
+            if im.get("trait") in ("std::marker::Sync", "std::marker::Send", "core::marker::Sync", "core::marker::Send")]
+
+
+def rule_no_manual_send_sync(ctx, f, rid, why):
+    """Expected count 0 in the crate; positive control: fixtures::LocalThing."""
+    ctx.rule(rid, "no hand-written Send / Sync impl for a local metric type or a type with non-thread-safe interior mutability (Cell, RefCell, Rc): " + why)
+    def single_threaded(ty):
+        # a local (unsync) metric type, or any type holding interior mutability that is not thread-safe
+        if "Local" in ty.split("<")[0]:
+            return True
+        a = f.adt(strip_generics(ty))
+        return bool(a) and any(re.search(r"\b(Cell|RefCell|Rc|UnsafeCell)<", x["ty"]) or "Local" in x["ty"] for v in a["variants"] for x in v["fields"])
+    hits = [h for h in manual_marker_impls(f) if single_threaded(h[0])]
+    for ty, tr, at in hits:
+        ctx.ob(rid, "%s|impl-%s" % (strip_generics(ty), tr), False, "`unsafe impl %s for %s` makes a type shareable that the compiler would not: %s" % (tr, ty, why), site=at)
+    if not hits:
+        ctx.ob(rid, "no-manual-Send-Sync", True, "no hand-written Send/Sync impl for a local / interior-mutable type among %d impl items" % len(f.impls))
+    ctl = manual_marker_impls(facts(ctx))
+    ctx.ob(rid, "control|fixtures::LocalThing", [(t, r) for t, r, _ in ctl] == [("fixtures::LocalThing", "Sync")],
+           "positive control: the impl-table scan must see `unsafe impl Sync for fixtures::LocalThing` (saw %s)" % ctl, kind="CONTROL")
